@@ -7,6 +7,7 @@ import (
 	"sort"
 
 	"github.com/insomniacslk/dhcp/dhcpv4"
+	"github.com/insomniacslk/dhcp/dhcpv6"
 	"github.com/insomniacslk/dhcp/iana"
 )
 
@@ -175,12 +176,59 @@ func enc4(p *dhcpv4.DHCPv4) (b []byte, perr any) {
 			perr = fmt.Sprint(r)
 		}
 	}()
-	return p.ToBytes(), nil
+	b = p.ToBytes()
+	laterEncodings()
+	return b, nil
+}
+
+// laterEncodings: other messages are encoded before the caller looks at the bytes it was given — an encoding
+// is the caller's own buffer (it is kept, sent later, compared), whatever the library encodes afterwards
+var other4s, other4l *dhcpv4.DHCPv4
+var other6 dhcpv6.DHCPv6
+
+func laterEncodings() {
+	if other4s == nil {
+		other4s, _ = dhcpv4.New(dhcpv4.WithMessageType(dhcpv4.MessageTypeInform), dhcpv4.WithOption(dhcpv4.OptHostName("another-host")))
+		other4l, _ = dhcpv4.New(dhcpv4.WithGeneric(dhcpv4.GenericOptionCode(43), make([]byte, 700)))
+		m, _ := dhcpv6.NewMessage()
+		m.AddOption(dhcpv6.OptClientID(&dhcpv6.DUIDLL{HWType: 1, LinkLayerAddr: []byte{9, 8, 7, 6, 5, 4}}))
+		m.AddOption(dhcpv6.OptDNS(net.ParseIP("2001:db8::53")))
+		other6, _ = dhcpv6.EncapsulateRelay(m, dhcpv6.MessageTypeRelayForward, net.ParseIP("2001:db8::1"), net.ParseIP("fe80::1"))
+	}
+	_ = other4s.ToBytes()
+	_ = other4l.ToBytes()
+	_ = other6.ToBytes()
 }
 
 func init() {
 	gens["c04"] = genC04
 	gens["c01"] = genC01
+}
+
+// hwAndIdentifier: every hardware type with hardware addresses of 0 / 6 / 16 bytes, with and without a client
+// identifier of the "type, address" shape: neither field is derived from the other, whatever the type
+func hwAndIdentifier(rng *rand.Rand, f func(*dhcpv4.DHCPv4)) {
+	for ht := 0; ht < 256; ht++ {
+		for k := 0; k < 4; k++ {
+			p := randPacket4(rng, rng.Intn(2), []int{0, 1, 4})
+			if p.Options == nil {
+				p.Options = dhcpv4.Options{}
+			}
+			p.HWType = iana.HWType(ht)
+			p.ClientHWAddr = [][]byte{nil, randBytes(rng, 6), randBytes(rng, 16), {}}[(ht+k)%4]
+			switch k {
+			case 0:
+				p.Options[61] = append([]byte{byte(ht)}, randBytes(rng, 6)...)
+			case 1:
+				p.Options[61] = append([]byte{byte(ht)}, randBytes(rng, 16)...)
+			case 2:
+				delete(p.Options, 61)
+			default:
+				p.Options[61] = randBytes(rng, 1+rng.Intn(20))
+			}
+			f(p)
+		}
+	}
 }
 
 // genC01: value -> ToBytes -> FromBytes; TLC checks wire = Enc4(val), Dec4(wire) = out = Canon(val).
@@ -246,6 +294,7 @@ func genC01(o *Out, rng *rand.Rand, tier string) {
 			emit(p, "every-code-small")
 		}
 	}
+	hwAndIdentifier(rng, func(p *dhcpv4.DHCPv4) { emit(p, "hw-and-identifier") })
 	for i := 0; i < n; i++ {
 		switch i % 4 {
 		case 0:
